@@ -22,7 +22,7 @@
       leaf   : cert, usages : Seq(STRING), dns : STRING]
    an "observation" of one call at time t is
      [t, current, expired, never : Seq(chain), err : STRING, panic : BOOLEAN]           *)
-EXTENDS PKI, TLC
+EXTENDS CertPool, TLC
 
 ----------------------------------------------------------------------------
 (* A layer *)
@@ -58,22 +58,10 @@ WhyErrBad(cs, o) == IF Len(o.current) = 0 THEN "nil-error-without-current-chain"
 ----------------------------------------------------------------------------
 (* B layer: x509/verify.go as coded *)
 
-InPool(pool, c)       == \E i \in 1..Len(pool) : pool[i].id = c.id          \* CertPool.Contains
 InChainById(ch, c)    == \E i \in 1..Len(ch) : ch[i].id = c.id             \* CertificateInChain
 SubjKeyInChain(ch, c) == \E i \in 1..Len(ch) : SameSubjectAndKey(ch[i], c)
 
-Indices(n) == [i \in 1..n |-> i]
-
-\* CertPool.findVerifiedParents: candidates by authority key id when the child has one and
-\* some pool member carries it as subject key id, else by raw issuer name; kept iff
-\* CheckSignatureFrom succeeds.  Result: pool indices in insertion order.
-BFindParents(pool, c) ==
-  LET idx    == Indices(Len(pool))
-      bySkid == IF c.akid = "" THEN <<>>
-                ELSE SelectSeq(idx, LAMBDA i : pool[i].skid = c.akid)
-      byName == SelectSeq(idx, LAMBDA i : pool[i].subj = c.iss)
-      cand   == IF Len(bySkid) > 0 THEN bySkid ELSE byName
-  IN SelectSeq(cand, LAMBDA i : IssuesChecked(pool[i], c))
+\* CertPool.Contains (InPool) and CertPool.findVerifiedParents (BFindParents) are modelled in CertPool.tla
 
 \* Certificate.isValid(certType, currentChain) = nil
 BIsValid(c, isIntermediate, cur) ==
